@@ -25,7 +25,11 @@ RULE = ("TLC enumerates every valid ScenarioID field combination of cooperative 
         "spec from the ids of one map x {ZAM,DEU}: 4.9k transitions, thorough: from all ids, 78k; the 4.9k and seeded "
         "random ones are executed: "
         "construct, print once via str() resp. Solution.benchmark_id, assign, then print / parse / compare / "
-        "write+read a solution again). Planning problems: Reorder gives cooperative lists every injective list of "
+        "write+read a solution again; and parse - mutate - parse: the text of the id is parsed, the same field of the "
+        "returned object is assigned, the text is parsed again (ScenarioID.from_benchmark_id, "
+        "CommonRoadSolutionReader.fromstring twice, and for a slice a scenario file read twice with convert_to_2d in "
+        "between): the second result must have the fields of the text, equal a freshly built id, print as the text "
+        "and be a new object). Planning problems: Reorder gives cooperative lists every injective list of "
         "planning problem ids over {3,7,12} (non-ascending, 12 before 3); random solutions use random distinct ids in "
         "random order; the printed lists must be positional w.r.t. Solution.planning_problem_ids and the written "
         "trajectory nodes, and after write -> read every planning problem id keeps its (model, type, cost). "
@@ -378,7 +382,94 @@ def _exec_set(case):
     except Exception as ex:
         e.update(field="all", res=_exc(ex))
     ev.append(e)
+    _exec_reparse(case, other, attr, ev)
     return ev
+
+
+def _exec_reparse(case, other, attr, ev):
+    """parse - mutate - parse: the text of id f is parsed, one field of the returned object is assigned, the same text
+    is parsed again.  The events of the SECOND result carry f only (no fld): it must be the id of the text."""
+    import logging
+    import os
+    import tempfile
+    from commonroad.common.solution import (CommonRoadSolutionReader, CommonRoadSolutionWriter, CostFunction,
+                                            PlanningProblemSolution, Solution, VehicleModel, VehicleType)
+    from commonroad.scenario.scenario import ScenarioID
+    f, pk, fld = case["f"], case["pk"], case["fld"]
+    sig = "scenario_id/reparse-after-set:" + fld
+    fresh = _mk_id(f, pk)
+    text = str(fresh)
+    toks = tokens(text)
+    try:
+        first = ScenarioID.from_benchmark_id(text, fresh.scenario_version)
+        setattr(first, attr, getattr(other, attr))
+        second = ScenarioID.from_benchmark_id(text, fresh.scenario_version)
+        ev.append({"op": "parse", "sig": sig, "f": f, "pk": pk, "toks": toks, "pf": _fields(second),
+                   "ppk": _pk_of(second), "res": "ok"})
+        ev.append({"op": "eq", "sig": sig, "f": f, "pk": pk, "ppk": _pk_of(second), "eq_op": _eq(fresh, second),
+                   "eq_po": _eq(second, fresh), "res": "ok"})
+        ev.append({"op": "reprint", "sig": sig, "toks": toks, "retoks": tokens(str(second)), "res": "ok"})
+        ev.append({"op": "fresh", "sig": sig, "same": 1 if second is first else 0})
+    except Exception as ex:
+        ev.append({"op": "parse", "sig": sig, "f": f, "pk": pk, "toks": toks, "pf": _NOF, "ppk": "none",
+                   "res": _exc(ex)})
+    # the same through the solution reader: read a document, edit the scenario id of the solution read, read it again
+    ssig = "solution/reparse-after-set:" + fld
+    vs, cs = [{"m": "PM", "t": 2}], ["WX1"]
+    sol = Solution(_mk_id(f, pk), [PlanningProblemSolution(1, VehicleModel.PM, VehicleType(2), CostFunction.WX1,
+                                                           _traj("PM"))])
+    xml = CommonRoadSolutionWriter(sol).dump()
+    e = {"op": "sol_parse", "route": "reader", "field": "scenario_id", "sig": ssig, "vs": vs, "cs": cs, "pp": [1],
+         "ord": [1], "f": f, "pk": pk, "got_vs": [], "got_cs": [], "got_f": _NOF, "got_ver": "", "got_assoc": [],
+         "eq_op": 0, "eq_po": 0, "res": "ok"}
+    try:
+        r1 = CommonRoadSolutionReader.fromstring(xml)
+        setattr(r1.scenario_id, attr, getattr(other, attr))
+        r2 = CommonRoadSolutionReader.fromstring(xml)
+        gvs, gcs, gid = _sol_fields(r2)
+        e.update(got_vs=gvs, got_cs=gcs, got_f=_fields(gid), got_ver=str(gid.scenario_version),
+                 eq_op=_eq(fresh, gid), eq_po=_eq(gid, fresh))
+        ev.append(e)
+        ev.append({"op": "fresh", "sig": ssig, "same": 1 if r2.scenario_id is r1.scenario_id else 0})
+    except Exception as ex:
+        e.update(field="all", res=_exc(ex))
+        ev.append(e)
+    # a scenario file read twice with Scenario.convert_to_2d (renames the map of the id in place) in between;
+    # done on a slice of the cases only (two file reads each)
+    if fld != "map" or f["country"] != "ZAM":
+        return
+    import numpy as np
+    from commonroad.common.file_reader import CommonRoadFileReader
+    from commonroad.common.file_writer import CommonRoadFileWriter, OverwriteExistingFile
+    from commonroad.planning.planning_problem import PlanningProblemSet
+    from commonroad.scenario.lanelet import Lanelet
+    from commonroad.scenario.scenario import Scenario, Tag
+    fsig = "scenario_file/reparse-after-convert_to_2d"
+    try:
+        sc = Scenario(0.1, _mk_id(f, pk))
+        sc.add_objects(Lanelet(np.array([[0.0, 1.0], [10.0, 1.0]]), np.array([[0.0, 0.0], [10.0, 0.0]]),
+                               np.array([[0.0, -1.0], [10.0, -1.0]]), 1))
+        root = os.environ.get("VERIF_OUT", "/verif/out")
+        os.makedirs(root, exist_ok=True)
+        with tempfile.TemporaryDirectory(dir=root) as tmp:
+            path = os.path.join(tmp, "s.xml")
+            logging.disable(logging.WARNING)                 # the writer logs a note about the default location
+            try:
+                CommonRoadFileWriter(sc, PlanningProblemSet(), "a", "b", "c", {Tag.URBAN}).write_to_file(
+                    path, OverwriteExistingFile.ALWAYS)
+            finally:
+                logging.disable(logging.NOTSET)
+            sc1, _ = CommonRoadFileReader(path).open()
+            sc1.convert_to_2d()
+            sc2, _ = CommonRoadFileReader(path).open()
+        second = sc2.scenario_id
+        ev.append({"op": "parse", "sig": fsig, "f": f, "pk": pk, "toks": toks, "pf": _fields(second),
+                   "ppk": _pk_of(second), "res": "ok"})
+        ev.append({"op": "reprint", "sig": fsig, "toks": toks, "retoks": tokens(str(second)), "res": "ok"})
+        ev.append({"op": "fresh", "sig": fsig, "same": 1 if second is sc1.scenario_id else 0})
+    except Exception as ex:
+        ev.append({"op": "parse", "sig": fsig, "f": f, "pk": pk, "toks": toks, "pf": _NOF, "ppk": "none",
+                   "res": _exc(ex)})
 
 
 # ---------------------------------------------------------------- driver interface
